@@ -68,8 +68,13 @@ fn die(msg: &str) -> ! {
     std::process::exit(2);
 }
 
-/// garbage pattern for free frames: every qword looks like a present, writable, user entry pointing to some frame of the window
+/// garbage pattern for free frames: four qwords in five look like a present, writable, user entry pointing to some frame of the window
 pub fn poison_word(pbase: u64, frame: usize, slot: usize) -> u64 {
+    // one word in five is zero (position depends on the frame, slot 0 included for some frames): stale memory is not uniformly
+    // non-zero, so initialisation that stops at / skips zero words, or keys on the first word, leaves garbage behind
+    if (slot + 3 * frame) % 5 == 2 {
+        return 0;
+    }
     let target = (frame * 7 + slot * 3 + 5) % NF;
     (pbase + (target as u64) * FSZ as u64) | 0x8000_0000_0000_0e67 & !0x80 // P|W|U|A|D + bits 9..11 + NX, never HUGE
 }
